@@ -149,6 +149,16 @@ ClassOf(n, Lm, DD) ==
   ELSE IF \E p \in Pairs(n) : At(DD, p) = INF THEN "has_unreachable_pair"
   ELSE "strongly_connected"
 
+(* retrieve records: is there a pair with two minimum-length paths of different   *)
+(* edge counts?  (there, float rounding of 'log' lengths can let hops and Pmat     *)
+(* follow different paths - the precondition of a finding, not a clause)           *)
+RetrieveClass(n, Lm, DD) ==
+  LET c == ClassOf(n, Lm, DD) IN
+  IF c \in {"selfloop", "zero_length_edge"} THEN c
+  ELSE LET WT == WalkTab(n, Lm) IN
+       IF \E p \in Pairs(n) : Cardinality(MinHops(n, DD, WT, p[1], p[2])) >= 2
+       THEN "tied_min_paths_differ_in_hops" ELSE c
+
 Judge(r) ==
   IF r.kind = "nav"
   THEN <<JudgeNav(r), Drift(r),
@@ -160,7 +170,8 @@ Judge(r) ==
            [] r.kind = "mean" -> JudgeMean(r, DD)
            [] r.kind = "retrieve" -> JudgeRetrieve(r, DD)
            [] OTHER -> "UnknownKind",
-         Drift(r), ClassOf(r.n, r.Lm, DD)>>
+         Drift(r),
+         IF r.kind = "retrieve" THEN RetrieveClass(r.n, r.Lm, DD) ELSE ClassOf(r.n, r.Lm, DD)>>
 
 VARIABLES tid, verdict
 TInit == tid \in 1..Len(Recs) /\ verdict = <<>>
